@@ -498,6 +498,20 @@ def x_b64decode(ex, st, args, kwargs, cx):
     ok = w.fun("b64_ok", ByteSeq, "bool")
     v = args[0]
     t = o.tyof(st, v)
+    if t is None and v.e is not None:
+        # a value of unknown type (read from a parsed document): text, bytes, or anything else -> TypeError
+        V = w.V
+        rest = st
+        for ty, test in (("str", V.is_str(v.e)), ("bytes", V.is_bytes(v.e))):
+            br = rest.clone()
+            br.assume(test)
+            if o.feasible(br):
+                yield from x_b64decode(ex, br, [SV(v.e, ty)] + list(args[1:]), kwargs, cx)
+            rest = rest.clone()
+            rest.assume(z3.Not(test))
+        if o.feasible(rest):
+            yield from ex.raise_new(rest, "TypeError")
+        return
     if t == "str":
         y = w.fun("utf8", "str", ByteSeq)(o.s(v))
     elif t == "bytes":
@@ -711,6 +725,9 @@ CONTAINER_METHODS[("Element", "append")] = l_append
 def c_int(ex, st, args, kwargs, cx):
     """int(x): identity on int, 0/1 on bool, parse of a str (ValueError exactly when int_ok fails; int_parse inverts int_text)"""
     w, o = ex.w, ex.o
+    if not args and not kwargs:
+        yield st, o.int_(z3.IntVal(0))
+        return
     if len(args) != 1 or kwargs:
         raise Unsupported("int() form")
     v = args[0]
@@ -751,6 +768,9 @@ def c_int(ex, st, args, kwargs, cx):
 
 def c_float(ex, st, args, kwargs, cx):
     w, o = ex.w, ex.o
+    if not args and not kwargs:
+        yield st, o.float_(z3.FPVal(0.0, FP64))
+        return
     if len(args) != 1 or kwargs:
         raise Unsupported("float() form")
     v = args[0]
